@@ -21,6 +21,7 @@ import (
 	"fmt"
 	"net"
 	"os"
+	"os/exec"
 	"runtime"
 	"strconv"
 	"strings"
@@ -199,9 +200,16 @@ type lifeCase struct {
 	binds     int
 	regs      int
 	hangs     int
-	stackBuf  []byte
 	quietWait time.Duration
+	// sock mode: the serving call is Listen on a real socket (unix path, abstract unix, tcp); no controlled listener
+	sock     bool
+	sockNet  string // "unix" or "tcp" for net.Dial
+	sockDial string
+	sockAddr string // varlink address for Listen
+	serveTmo bool
 }
+
+const sockTimeout = 400 * time.Millisecond
 
 type lifeIface struct{ name string }
 
@@ -254,16 +262,32 @@ func quiet(buf []byte) bool {
 
 func (h *lifeCase) waitQuiet() bool {
 	deadline := time.Now().Add(h.quietWait)
+	// real sockets: readiness travels through the kernel and the netpoller, so a single look can find everybody in
+	// "IO wait" although data is under way; require several quiet looks with the harness goroutine asleep in between
+	need := 1
+	if h.sock {
+		need = 6
+	}
+	got := 0
 	for spin := 0; ; spin++ {
-		runtime.Gosched()
-		if quiet(lifeStackBuf) {
-			return true
+		if h.sock {
+			time.Sleep(150 * time.Microsecond)
+		} else {
+			runtime.Gosched()
 		}
+		if quiet(lifeStackBuf) {
+			got++
+			if got >= need {
+				return true
+			}
+			continue
+		}
+		got = 0
 		if time.Now().After(deadline) {
 			h.hangs++
 			return false
 		}
-		if spin > 20 {
+		if spin > 20 && !h.sock {
 			time.Sleep(20 * time.Microsecond)
 		}
 	}
@@ -368,6 +392,9 @@ func (h *lifeCase) connFor(tok string) (*lifeConn, string) {
 func (h *lifeCase) event(tok string) string {
 	switch tok[0] {
 	case 'B': // real Bind on a fresh abstract address; on success the listener is swapped for a controlled one
+		if h.sock {
+			return "unknown"
+		}
 		err := h.svc.Bind(context.Background(), h.freshAddr())
 		if err != nil {
 			if strings.Contains(err.Error(), "already running") {
@@ -391,8 +418,12 @@ func (h *lifeCase) event(tok string) string {
 		var tmo time.Duration
 		if tok == "S1" {
 			tmo = time.Hour
+			if h.sock {
+				tmo = sockTimeout
+			}
 		}
 		h.serve = run
+		h.serveTmo = tok == "S1"
 		go func() {
 			defer close(run.done)
 			defer func() {
@@ -400,7 +431,11 @@ func (h *lifeCase) event(tok string) string {
 					run.panic = true
 				}
 			}()
-			run.ret = h.svc.DoListen(ctx, tmo)
+			if h.sock {
+				run.ret = h.svc.Listen(ctx, h.sockAddr, tmo)
+			} else {
+				run.ret = h.svc.DoListen(ctx, tmo)
+			}
 		}()
 		h.waitQuiet()
 		return "go"
@@ -424,6 +459,22 @@ func (h *lifeCase) event(tok string) string {
 			return "hang"
 		}
 	case 'C':
+		if h.sock {
+			c := &lifeConn{accepted: true}
+			cli, err := net.DialTimeout(h.sockNet, h.sockDial, 2*time.Second)
+			if err != nil {
+				c.refused = true
+			} else {
+				c.cli = cli
+				c.rd = bufio.NewReader(cli)
+			}
+			h.conns = append(h.conns, c)
+			h.waitQuiet()
+			if c.refused {
+				return "refused"
+			}
+			return "ok"
+		}
 		if len(h.lsns) == 0 { // nothing was ever bound: there is no endpoint to connect to
 			h.conns = append(h.conns, &lifeConn{refused: true})
 			return "nolsn"
@@ -452,10 +503,15 @@ func (h *lifeCase) event(tok string) string {
 		if !c.accepted && !c.dropped {
 			return "pend"
 		}
-		if tok[0] == 'Q' {
-			return h.roundTrip(c, reqGetInfo)
+		req := reqGetInfo
+		if tok[0] == 'F' {
+			req = reqFail
 		}
-		return h.roundTrip(c, reqFail)
+		r := h.roundTrip(c, req)
+		if h.sock && r == "eof" { // a kernel socket accepts the write even when the peer is gone
+			r = "fail"
+		}
+		return r
 	case 'X', 'A':
 		c, why := h.connFor(tok)
 		if c == nil {
@@ -477,6 +533,15 @@ func (h *lifeCase) event(tok string) string {
 		h.waitQuiet()
 		return "-"
 	case 'T':
+		if h.sock { // real clock: sleep past the deadline (one-sided: at least one expiry has happened afterwards)
+			running, _, _, _ := h.svc.VerifState()
+			if !(running && h.serveTmo && retClass(h.serve) == 1) {
+				return "skip"
+			}
+			time.Sleep(sockTimeout + 80*time.Millisecond)
+			h.waitQuiet()
+			return "fired"
+		}
 		fired := false
 		for _, l := range h.lsns {
 			if l.expire() {
@@ -513,6 +578,11 @@ func (h *lifeCase) event(tok string) string {
 }
 
 func runLifeHistory(id string, tag string, evs []string) (string, error) {
+	return runLifeHistoryOn(id, tag, "", evs)
+}
+
+// sockKind: "" = controlled listener; "fs", "abstract", "tcp" = Listen on a real socket of that kind
+func runLifeHistoryOn(id string, tag string, sockKind string, evs []string) (string, error) {
 	svc, err := varlink.NewService("v", "p", "1", "u")
 	if err != nil {
 		return "", err
@@ -521,6 +591,23 @@ func runLifeHistory(id string, tag string, evs []string) (string, error) {
 		return "", err
 	}
 	h := &lifeCase{svc: svc, id: id, quietWait: 3 * time.Second}
+	switch sockKind {
+	case "fs":
+		p := fmt.Sprintf("%s/verif-life-%d-%s.sock", os.TempDir(), os.Getpid(), id)
+		h.sock, h.sockNet, h.sockDial, h.sockAddr = true, "unix", p, "unix:"+p
+		defer os.Remove(p)
+	case "abstract":
+		p := fmt.Sprintf("@verif-lifesock-%d-%s", os.Getpid(), id)
+		h.sock, h.sockNet, h.sockDial, h.sockAddr = true, "unix", p, "unix:"+p
+	case "tcp":
+		pl, err := net.Listen("tcp", "127.0.0.1:0")
+		if err != nil {
+			return "", err
+		}
+		a := pl.Addr().String()
+		pl.Close()
+		h.sock, h.sockNet, h.sockDial, h.sockAddr = true, "tcp", a, "tcp:"+a
+	}
 	l := &Line{}
 	l.S("life").S(tag).N(len(evs))
 	for _, e := range evs {
@@ -630,6 +717,117 @@ func lifeEpilogue(body []string) []string {
 	return ep
 }
 
+// sock mode: no stand-alone Bind (Listen binds the same real address again)
+func lifeEpilogueSock(body []string) []string {
+	var out []string
+	for _, s := range lifeEpilogue(body) {
+		if s != "B" {
+			out = append(out, s)
+		}
+	}
+	return out
+}
+
+type sockHistory struct {
+	kind string
+	body []string
+}
+
+func lifeSockHistories(prop string, tier string) []sockHistory {
+	var out []sockHistory
+	thorough := tier == "thorough"
+	for _, kind := range []string{"abstract", "fs", "tcp"} {
+		var hs [][]string
+		if prop == "C14" {
+			depth := 3
+			if thorough {
+				depth = 4
+			}
+			enumLife([]string{"S0"}, []string{"C", "Q0", "X0", "A0", "F0", "K", "H", "L", "S0"}, depth, &hs)
+			enumLife(nil, []string{"C", "H", "L", "S0"}, 2, &hs)
+		} else {
+			hs = [][]string{
+				{"S1", "T"},
+				{"S1", "T", "C"},
+				{"S1", "C", "T", "Q0", "X0", "T"},
+				{"S1", "C", "X0", "T"},
+				{"S1", "C", "A0", "T"},
+				{"S1", "C", "C", "X0", "T", "X1", "T"},
+				{"S0", "C", "T", "X0", "T"},
+				{"S1", "C", "T", "H"},
+			}
+			if thorough {
+				enumLife([]string{"S1"}, []string{"C", "X0", "T", "Q0"}, 3, &hs)
+			}
+		}
+		for _, b := range hs {
+			out = append(out, sockHistory{kind, b})
+		}
+	}
+	return out
+}
+
+// lifeSockCommand: Listen on real sockets. Histories with real-clock expiries sleep, so the cases are spread over
+// child processes (the quiescence test is per process).
+func lifeSockCommand(prop string) func(e *env) error {
+	return func(e *env) error {
+		hs := lifeSockHistories(prop, e.tier)
+		runOne := func(i int) (string, error) {
+			var evs []string
+			for _, s := range append(append([]string(nil), hs[i].body...), lifeEpilogueSock(hs[i].body)...) {
+				evs = append(evs, expandSym(s)...)
+			}
+			return runLifeHistoryOn(fmt.Sprintf("s%d", i), prop+"sock"+hs[i].kind, hs[i].kind, evs)
+		}
+		if e.only >= 0 || os.Getenv("VERIF_LIFE_CHILD") != "" {
+			defer runtime.GOMAXPROCS(runtime.GOMAXPROCS(1))
+			lo, hi := 0, len(hs)
+			if e.only >= 0 {
+				lo, hi = e.only, e.only+1
+			} else {
+				fmt.Sscanf(os.Getenv("VERIF_LIFE_CHILD"), "%d:%d", &lo, &hi)
+			}
+			for i := lo; i < hi && i < len(hs); i++ {
+				line, err := runOne(i)
+				if err != nil {
+					return err
+				}
+				fmt.Fprintln(e.out, line)
+			}
+			return nil
+		}
+		workers := 8
+		if prop == "C15" {
+			workers = 24
+		}
+		if workers > len(hs) {
+			workers = len(hs)
+		}
+		outs := make([][]byte, workers)
+		errs := make([]error, workers)
+		var wg sync.WaitGroup
+		for w := 0; w < workers; w++ {
+			lo, hi := len(hs)*w/workers, len(hs)*(w+1)/workers
+			wg.Add(1)
+			go func(w int) {
+				defer wg.Done()
+				cmd := exec.Command(os.Args[0], os.Args[1], "-tier", e.tier, "-seed", strconv.FormatUint(e.seed, 10))
+				cmd.Env = append(os.Environ(), fmt.Sprintf("VERIF_LIFE_CHILD=%d:%d", lo, hi))
+				cmd.Stderr = os.Stderr
+				outs[w], errs[w] = cmd.Output()
+			}(w)
+		}
+		wg.Wait()
+		for w := 0; w < workers; w++ {
+			if errs[w] != nil {
+				return errs[w]
+			}
+			e.out.Write(outs[w])
+		}
+		return nil
+	}
+}
+
 var (
 	alpha14     = []string{"C", "Ca", "Q0", "Q1", "X0", "X1", "A0", "F0", "F1", "K", "H", "B", "L", "S0"}
 	alpha14free = []string{"B", "S0", "S1", "C", "Ca", "Q0", "X0", "K", "H", "L", "T", "G", "R"}
@@ -728,4 +926,6 @@ func lifeCommand(prop string) func(e *env) error {
 func init() {
 	commands["life14"] = lifeCommand("C14")
 	commands["life15"] = lifeCommand("C15")
+	commands["lifesock14"] = lifeSockCommand("C14")
+	commands["lifesock15"] = lifeSockCommand("C15")
 }
